@@ -1,10 +1,10 @@
 package main
 
 import (
-	"go/token"
 	"encoding/json"
 	"flag"
 	"fmt"
+	"go/token"
 	"os"
 	"path/filepath"
 	"sort"
@@ -103,6 +103,7 @@ func loadAll(o *Options) (*World, error) {
 	}
 	w.noteSpecTypes()
 	loadLocalHints(o.extspec)
+	w.rebindRenamedHelpers()
 	registerTemplateAxioms(w)
 	return w, nil
 }
@@ -307,6 +308,7 @@ func cmdCheck(args []string) int {
 			continue
 		}
 		ex := NewExec(w, fn, fs)
+		ex.prop = prop
 		obls, err := runExec(ex)
 		rep.Paths = ex.paths + 1
 		for n := range ex.inlined {
@@ -368,6 +370,11 @@ func cmdCheck(args []string) int {
 	all = append(all, schema...)
 	all = append(all, failClosed...)
 
+	if os.Getenv("GOVC_LIST") != "" {
+		for _, ob := range all {
+			fmt.Printf("OBL %-10s %-11s %s/%s %v\n", ob.Kind, ob.Status, ob.Func, ob.Name, ob.Tags)
+		}
+	}
 	return report(o, w, prop, seed, all, reports, d, assumed, havocked, inlined, tLoad, tGen, t0)
 }
 
